@@ -27,10 +27,15 @@ def count_dist(acc, key, val):
 class WatchSpec(SeqSpec):
     component = "watch"
     imports = CONC_IMPORTS
+    # M: the matcher on canonical states (Watch.canon); P: cross-check of that state reduction against the
+    # plain matcher on the smaller scenarios (both must accept)
     preamble = ("Local Open Scope nat_scope.\n"
                 "Definition chk (c : list (option nat * list Watch.act) * nat * list Watch.lab) : bool :=\n"
-                "  let '(cfg, n, evs) := c in Watch.accepts_history cfg n evs.")
-    checkers = {"M": "chk"}
+                "  let '(cfg, n, evs) := c in Watch.accepts_history cfg n evs.\n"
+                "Definition chkp (c : list (option nat * list Watch.act) * nat * list Watch.lab) : bool :=\n"
+                "  let '(cfg, n, evs) := c in\n"
+                "  if Nat.leb (length (flat_map snd cfg)) 9 then Watch.accepts_history_plain cfg n evs else true.")
+    checkers = {"M": "chk", "P": "chkp"}
 
     def gen_one(self, rng, kind, maxpar=3):
         threads = []
